@@ -132,6 +132,20 @@ func jsonShape(shape, key string, member []byte, signer gen.Entity, honestBody [
 		return honestBody[:len(honestBody)/2]
 	case "utf8Garbage":
 		m["id"] = string([]byte{0xff, 0xfe, 0x00, 0x80})
+	case "identityIdsOdd", "identityIdTypes": // identities whose id is bare, empty, not hex, of another type: listed before and instead of the matching one
+		odd := []any{"TDX_", "", "TDX", "TDX_z", "TDX_0", "tdx_01", "TDX_\u0000", "TDX_0102"}
+		if shape == "identityIdTypes" {
+			odd = []any{7, nil, []any{}, map[string]any{}, true}
+		}
+		var ids []any
+		for _, o := range odd {
+			ids = append(ids, map[string]any{"id": o, "mrsigner": "", "attributes": "", "attributesMask": "", "tcbLevels": []any{}})
+		}
+		if old, ok := m["tdxModuleIdentities"].([]any); ok {
+			m["tdxModuleIdentities"] = append(ids, old...)
+		} else {
+			m["tcbLevels"] = []any{map[string]any{"tcb": map[string]any{"isvsvn": "x"}, "tcbStatus": 3}}
+		}
 	case "identitiesNull":
 		m["tdxModuleIdentities"] = nil
 	case "identityLevelsNull":
